@@ -291,6 +291,95 @@ for _r, _forms in sorted(_GCM_ROUTES.items()):
                         thorough=[x for x in _gcm_shapes("thorough") if x["form"] in _forms and x not in _q]))
 
 
+# ---- public stream API (reference back ends) vs specification: key, nonce, initial counter, message symbolic ---------
+ST_UNITS = ["crypto_stream/chacha20/stream_chacha20.c", "crypto_stream/chacha20/ref/chacha20_ref.c", "crypto_core/hchacha20/core_hchacha20.c",
+            "crypto_stream/xchacha20/stream_xchacha20.c", "crypto_stream/salsa20/stream_salsa20.c", "crypto_stream/salsa20/ref/salsa20_ref.c",
+            "crypto_core/salsa/ref/core_salsa_ref.c", "crypto_core/hsalsa20/ref2/core_hsalsa20_ref2.c", "crypto_core/hsalsa20/core_hsalsa20.c",
+            "crypto_stream/xsalsa20/stream_xsalsa20.c", "crypto_stream/salsa2012/ref/stream_salsa2012_ref.c", "crypto_stream/salsa2012/stream_salsa2012.c",
+            "crypto_stream/salsa208/ref/stream_salsa208_ref.c", "crypto_stream/salsa208/stream_salsa208.c", "crypto_stream/crypto_stream.c", "sodium/utils.c"]
+ST_ALG = {"chacha20": (8, 64), "chacha20_ietf": (12, 32), "xchacha20": (24, 64), "salsa20": (8, 64), "xsalsa20": (24, 64), "salsa2012": (8, 0), "salsa208": (8, 0)}
+
+
+def st_inputs(p):
+    nl, icw = ST_ALG[p["alg"]]
+    inp = {"key": sym_bytes("k", 32), "nonce": sym_bytes("n", nl), "msg": sym_bytes("m", p["len"]) if p["form"] != "stream" else []}
+    if p["form"] == "xor_ic":
+        inp["ic"] = p["ic"] if "ic" in p else aig.var("ic", icw)
+    return inp
+
+
+def st_spec(inp, p):
+    from . import stream_spec as S
+    alg, n = p["alg"], p["len"]
+    ic = inp.get("ic", 0)
+    if alg == "chacha20":
+        ks = S.chacha20_stream(inp["key"], inp["nonce"], ic, n, False)
+    elif alg == "chacha20_ietf":
+        ks = S.chacha20_stream(inp["key"], inp["nonce"], ic, n, True)
+    elif alg == "xchacha20":
+        ks = S.xchacha20_stream(inp["key"], inp["nonce"], ic, n)
+    elif alg == "salsa20":
+        ks = S.salsa20_stream(inp["key"], inp["nonce"], ic, n)
+    elif alg == "xsalsa20":
+        ks = S.xsalsa20_stream(inp["key"], inp["nonce"], ic, n)
+    else:
+        ks = S.salsa20_stream(inp["key"], inp["nonce"], 0, n, 12 if alg == "salsa2012" else 8)
+    if p["form"] != "stream":
+        ks = [T.binop("xor", a, b, 8) for a, b in zip(ks, inp["msg"])]
+    return [aig.const_bits(0, 32)] + [_b(x) for x in ks]
+
+
+def st_run(it, entry, inp, p):
+    alg, n, f = p["alg"], p["len"], p["form"]
+    nl, icw = ST_ALG[alg]
+    k = it.new_buffer(32, "k", False, [0] * 32)
+    fill(it, k, inp["key"])
+    nn = it.new_buffer(nl, "n", False, [0] * nl)
+    fill(it, nn, inp["nonce"])
+    pre = "crypto_stream_" + alg
+    if f == "stream":
+        c = it.new_buffer(n, "c", False, [0x55] * n)
+        r = it.call(_name(it, pre), [c, n, nn, k])
+    else:
+        m = it.new_buffer(n, "m", False, [0] * n)
+        fill(it, m, inp["msg"])
+        c = m if p.get("inplace") else it.new_buffer(n, "c", False, [0x55] * n)
+        if f == "xor":
+            r = it.call(_name(it, pre + "_xor"), [c, m, n, nn, k])
+        else:
+            ic = inp["ic"]
+            if alg == "chacha20_ietf":
+                # contract of the IETF variant: ic + ceil(n / 64) <= 2^32 (misuse otherwise: C03's CBMC guard obligation)
+                blocks = (n + 63) // 64
+                ok = T.icmp("ule", ic, (1 << 32) - blocks, 32)
+                if isinstance(ok, aig.AV):
+                    it.assume_lits = [ok.bits[0]]
+            r = it.call(_name(it, pre + "_xor_ic"), [c, m, n, nn, ic, k])
+    return [aig.const_bits(r & 0xffffffff, 32)] + [_b(x) for x in it.read_buffer(c, n)]
+
+
+def _st_shapes(tier):
+    q = []
+    lens = (0, 1, 63, 64, 65, 128, 130) if tier == "quick" else (0, 1, 2, 31, 32, 33, 63, 64, 65, 127, 128, 129, 191, 192, 193, 255, 256, 257, 320)
+    for alg in ST_ALG:
+        for n in lens:
+            forms = ["stream", "xor"] + (["xor_ic"] if ST_ALG[alg][1] else [])
+            if tier == "quick" and n not in (0, 65, 130):
+                forms = forms[-1:]
+            for f in forms:
+                if alg == "chacha20_ietf" and f == "xor_ic" and n > 64:
+                    # several blocks: the reference unit carries a 32-bit overflow into the first nonce word, which the
+                    # public API excludes through its misuse guard (C03's CBMC obligation); the last allowed and two
+                    # ordinary initial counters are taken concretely, the single-block shapes keep ic symbolic
+                    for icv in (0, 7, (1 << 32) - (n + 63) // 64):
+                        q.append(dict(alg=alg, form=f, len=n, ic=icv))
+                    continue
+                q.append(dict(alg=alg, form=f, len=n))
+        for n in ((65,) if tier == "quick" else (1, 64, 65, 130)):
+            q.append(dict(alg=alg, form="xor", len=n, inplace=1))
+    return q
+
+
 # ---- BLAKE2b (generichash) and SipHash vs their specifications: everything symbolic ------------------------
 B2U = ["crypto_generichash/blake2b/ref/blake2b-ref.c", "crypto_generichash/blake2b/ref/generichash_blake2b.c",
        "crypto_generichash/blake2b/ref/blake2b-compress-ref.c", "crypto_generichash/crypto_generichash.c", "sodium/utils.c"]
@@ -419,6 +508,12 @@ def _aegis_units(alg):
     return [d + "aead_%s.c" % alg, d + "%s_aesni.c" % alg, d + "%s_soft.c" % alg, "crypto_core/softaes/softaes.c", "crypto_verify/verify.c", "sodium/utils.c"]
 
 
+TARGETS.append(dict(name="stream-ref-spec", inputs=st_inputs, run=st_run, sums=True, a=dict(spec=st_spec),
+                    b=dict(units=ST_UNITS, entry=None, undefs=["HAVE_AMD64_ASM"]),
+                    quick=[x for x in _st_shapes("quick") if not x.get("inplace")], thorough=[x for x in _st_shapes("thorough") if x not in _st_shapes("quick") and not x.get("inplace")]))
+TARGETS.append(dict(name="stream-ref-inplace", inputs=st_inputs, run=st_run, sums=True, a=dict(spec=st_spec),
+                    b=dict(units=ST_UNITS, entry=None, undefs=["HAVE_AMD64_ASM"]),
+                    quick=[x for x in _st_shapes("quick") if x.get("inplace")], thorough=[x for x in _st_shapes("thorough") if x.get("inplace") and x not in _st_shapes("quick")]))
 TARGETS.append(dict(name="blake2b-ref-spec", inputs=gh_inputs, run=gh_run, sums=True, a=dict(spec=gh_spec), b=dict(units=B2U, entry=None),
                     quick=_gh_shapes("quick"), thorough=[x for x in _gh_shapes("thorough") if x not in _gh_shapes("quick")]))
 TARGETS.append(dict(name="siphash-ref-spec", inputs=sh_inputs, run=sh_run, sums=True, a=dict(spec=sh_spec),
